@@ -98,11 +98,11 @@ package standard
 //@ modifies failedsteps
 //@ ensures [endpoints] result2 == nil ==> (forall i int :: 0 <= i && i < len(result1) ==> result1[i] != nil)
 //@ ensures [nocommit-after-failure] result2 == nil ==> failedsteps == 0
-//@ loop #1
+//@ loop #1 over range participants
 //@ invariant [clean] failedsteps == 0 && 0 <= _n
-//@ loop #2
+//@ loop #2 over range participants
 //@ invariant [clean] failedsteps == 0 && 0 <= _n
-//@ loop #3
+//@ loop #3 over range participants
 //@ invariant [clean] failedsteps == 0 && 0 <= _n && _n <= len(participants)
 //@ func (*Service).checkAccess
 //@ requires s != nil && s.checkerSvc != nil
@@ -130,7 +130,7 @@ package standard
 // C13: execute succeeds only if the swap with every higher-numbered participant took place (a failed exchange fails the generation)
 //@ ensures [swapped] result == nil ==> account in s.generations && (forall id uint64 :: id in s.generations[account].distributionSecrets && id > s.id ==> id in s.generations[account].sharedSecrets)
 //@ hint-after getGeneration@1 [ginv] result1 == nil ==> genInv(result0)
-//@ loop #1
+//@ loop #1 over range generation.distributionSecrets
 //@ invariant [swapped] forall id uint64 :: visited()[id] && id > s.id ==> id in generation.sharedSecrets
 //@ invariant [table] tableInv(s) && generation != nil && account in s.generations && s.generations[account] == generation
 //@ invariant [gens] forall a string :: ((a in s.generations) <==> old(a in s.generations) || a == account) && (a != account ==> s.generations[a] == old(s.generations[a]))
@@ -152,16 +152,16 @@ package standard
 //@ ensures [counts] result2 == nil ==> len(old(s.generations[account]).sharedSecrets) == len(old(s.generations[account]).participants) && len(old(s.generations[account]).sharedVVecs) == len(old(s.generations[account]).participants)
 //@ ensures [others] forall a string :: a != account ==> ((a in s.generations) <==> old(a in s.generations)) && s.generations[a] == old(s.generations[a])
 //@ hint-after getGeneration@1 [oldinv] forall a string :: a in s.generations ==> genInv(s.generations[a]) && s.generations[a] == old(s.generations[a]) && old(a in s.generations)
-//@ loop #1
+//@ loop #1 over range generation.sharedSecrets
 //@ invariant [fresh] fresh(contributedParticipants) && unchangedElems("uint64")
-//@ loop #2
+//@ loop #2 over range generation.participants
 //@ invariant [range] 0 <= _n && _n <= len(generation.participants) && len(allParticipants) == len(generation.participants)
-//@ loop #3
+//@ loop #3 over range generation.participants
 //@ invariant [range] 0 <= _n && _n <= len(generation.participants)
 //@ invariant [present] forall k int :: 0 <= k && k < _n ==> generation.participants[k].ID in generation.sharedSecrets
-//@ loop #4
+//@ loop #4 over range generation.sharedSecrets
 //@ invariant true
-//@ loop #5
+//@ loop #5 over range generation.sharedVVecs
 //@ invariant [agg] len(aggregateVVec) == generation.threshold && fresh(aggregateVVec)
-//@ loop #6
+//@ loop #6 over range sharedVVec
 //@ invariant [range] 0 <= _n && _n <= len(sharedVVec) && len(aggregateVVec) == generation.threshold && fresh(aggregateVVec)
